@@ -421,7 +421,7 @@ def run(ctx):
     rule_py_seed(ctx, py)
     rule_py_pure(ctx, py)
     rule_euler(ctx, tu, eff)
-    from .. import truth
-    truth.rule(ctx, "C08.TRUTH", ctx.py, ["rdscript", "simulate", "librdengine"], floor=10)
+    from .. import lints
+    lints.run(ctx, "C08", ctx.py, ["rdscript", "simulate", "librdengine"], truth_floor=10)
     ctx.assume("bit-identity across compilers / libm versions is not decided (same binary assumed); the sharing of the "
                "global simulation between engine objects is C10.ISOLATION")
